@@ -86,7 +86,7 @@ def space(tier):
 
 
 def jobs(tier):
-    return [(tier, c) for c in defs.chunks(space(tier), 60 if tier == "quick" else 200)]
+    return [("pointer-switch", tier)] + [(tier, c) for c in defs.chunks(space(tier), 60 if tier == "quick" else 200)]
 
 
 # ---------------------------------------------------------------------------------------------- ctypes oracle
@@ -200,7 +200,47 @@ def ptr_widths(names, tier):
     return [None]
 
 
+def pointer_switch(tier) -> JobResult:
+    """The pointer width of a definition is the one configured when it is loaded: switch it on the object between two loads (all ordered pairs)."""
+    import itertools as _it
+
+    from dissect.cstruct import cstruct
+
+    res = JobResult()
+    widths = ("uint8", "uint16", "uint32", "uint64")
+    body = "uint8 a; uint8 *p; uint16 b; uint32 *q[2]; uint8 c;"
+    stm = TStruct("M", (TField("a", INTS["uint8"]), TField("p", TPtr(INTS["uint8"])), TField("b", INTS["uint16"]), TField("q", TArr(TPtr(INTS["uint32"]), 2)), TField("c", INTS["uint8"])))
+    for w1, w2 in _it.permutations(widths, 2):
+        for align in (False, True):
+            for compiled in (False, True):
+                cs = cstruct(pointer=w1)
+                case = {"pointer-switch": [w1, w2], "align": align, "compiled": compiled}
+                res.evaluations += 1
+                res.states += 1
+                res.transitions += 3
+                res.nontrivial += 1
+                try:
+                    cs.load(f"struct A {{ {body} }};", align=align, compiled=compiled)
+                    cs.pointer = cs.resolve(w2)
+                    cs.load(f"struct B {{ {body} }};", align=align, compiled=compiled)
+                    for name, w in (("A", w1), ("B", w2)):
+                        offs, size, al = layout(stm, Cfg(endian="<", align=align, ptr=INTS[w]))
+                        T = getattr(cs, name)
+                        # (the older definition is only asked for its layout: its pointer members do their I/O through the object's current pointer
+                        # type, and what a live switch means for definitions that already exist is not specified)
+                        got = ([T.fields[f.name].offset for f in stm.fields], len(T), len(T().dumps()) if name == "B" else size)
+                        if got != (list(offs), size, size):
+                            res.violations.append(Violation("pointer-switch:layout", "pointer-switch:layout", case,
+                                f"pointer type {w1}, then switched to {w2}: struct {name} (loaded under {w}) has offsets/size/default dump {got}, C gives {(list(offs), size, size)}"))
+                except Exception as e:  # noqa: BLE001
+                    res.violations.append(Violation("pointer-switch:raises", "pointer-switch:raises", case, f"pointer type {w1} then {w2}: {impl.exc_sig(e)} {e!r}"))
+    res.samples.append({"pointer_switch": "load under w1, set cs.pointer to w2, load again: both structures follow the width in effect when they were loaded"})
+    return res
+
+
 def run(job) -> JobResult:
+    if job[0] == "pointer-switch":
+        return pointer_switch(job[1])
     res = JobResult()
     tier, chunk = job
     for names in chunk:
@@ -211,6 +251,8 @@ def run(job) -> JobResult:
 
 
 def replay(case):
+    if "pointer-switch" in case:
+        return [v for v in pointer_switch("thorough").violations if v.case == case]
     res = JobResult()
     layout_atoms()
     check_case(tuple(case["atoms"]), case["align"], case.get("ptr"), res, "thorough")
